@@ -9,7 +9,8 @@
 //	caps   make(chan T, <int literal>) -> verifrt.ChanCap(<lit>); newProxyIDRingBuffer(<lit>) -> verifrt.RingCap(<lit>)
 //	locks  x.Lock()/Unlock()/RLock()/RUnlock() -> verifrt.Lock(&x) ... (cooperative scheduler points)
 //	go     go f(a...) -> verifrt.Go(site, func(){ f(a...) }) with arguments bound at the go statement
-//	points verifrt.Point(site) before channel sends, close(), and select statements
+//	points verifrt.Point(site) before (and after) channel sends/receives, close(), and select statements
+//	now    time.Now() -> verifrt.Now() (strictly increasing readings under virtual time)
 package main
 
 import (
@@ -70,12 +71,22 @@ func (r *rewriter) rewriteCall(c *ast.CallExpr) {
 			}
 		}
 	}
+	if r.rules["now"] {
+		if sel, ok := c.Fun.(*ast.SelectorExpr); ok && len(c.Args) == 0 && sel.Sel.Name == "Now" {
+			if id, ok := sel.X.(*ast.Ident); ok && id.Name == "time" {
+				c.Fun = rt("Now")
+				r.used = true
+				return
+			}
+		}
+	}
 	if r.rules["locks"] {
 		if sel, ok := c.Fun.(*ast.SelectorExpr); ok && len(c.Args) == 0 {
 			if m, ok := lockMethods[sel.Sel.Name]; ok {
 				recv := sel.X
+				site := r.site(sel.Sel)
 				c.Fun = rt(m)
-				c.Args = []ast.Expr{r.site(c), &ast.UnaryExpr{Op: token.AND, X: recv}}
+				c.Args = []ast.Expr{site, &ast.UnaryExpr{Op: token.AND, X: recv}}
 				r.used = true
 			}
 		}
@@ -87,10 +98,16 @@ func (r *rewriter) pointStmt(n ast.Node, kind string) ast.Stmt {
 	return &ast.ExprStmt{X: &ast.CallExpr{Fun: rt("Point"), Args: []ast.Expr{r.site(n), &ast.BasicLit{Kind: token.STRING, Value: strconv.Quote(kind)}}}}
 }
 
+func isRecv(e ast.Expr) bool {
+	u, ok := e.(*ast.UnaryExpr)
+	return ok && u.Op == token.ARROW
+}
+
 // rewriteStmts handles statement-level rules on a statement list.
 func (r *rewriter) rewriteStmts(list []ast.Stmt) []ast.Stmt {
 	var out []ast.Stmt
 	for _, s := range list {
+		after := false
 		switch st := s.(type) {
 		case *ast.GoStmt:
 			if r.rules["go"] {
@@ -100,10 +117,17 @@ func (r *rewriter) rewriteStmts(list []ast.Stmt) []ast.Stmt {
 		case *ast.SendStmt:
 			if r.rules["points"] {
 				out = append(out, r.pointStmt(st, "send"))
+				after = true
 			}
 		case *ast.SelectStmt:
 			if r.rules["points"] {
 				out = append(out, r.pointStmt(st, "select"))
+				// a point at the start of every clause: a goroutine woken by a channel operation parks again at once
+				for _, c := range st.Body.List {
+					if cc, ok := c.(*ast.CommClause); ok {
+						cc.Body = append([]ast.Stmt{r.pointStmt(cc, "selected")}, cc.Body...)
+					}
+				}
 			}
 		case *ast.ExprStmt:
 			if r.rules["points"] {
@@ -112,9 +136,21 @@ func (r *rewriter) rewriteStmts(list []ast.Stmt) []ast.Stmt {
 						out = append(out, r.pointStmt(st, "close"))
 					}
 				}
+				if isRecv(st.X) {
+					out = append(out, r.pointStmt(st, "recv"))
+					after = true
+				}
+			}
+		case *ast.AssignStmt:
+			if r.rules["points"] && len(st.Rhs) == 1 && isRecv(st.Rhs[0]) {
+				out = append(out, r.pointStmt(st, "recv"))
+				after = true
 			}
 		}
 		out = append(out, s)
+		if after {
+			out = append(out, r.pointStmt(s, "woken"))
+		}
 	}
 	return out
 }
